@@ -34,9 +34,14 @@ Members(name) ==
     [] name = "q+b" -> {"q", "b"}
     [] name = "b+c" -> {"b", "c"}
     [] name = "s+e" -> {"s", "e"}
+    \* '+' is UNION: expressions whose terms overlap (a superset and one of its members, nested supersets, a repeated term)
+    [] name = "a+b" -> A \cup {"b"}
+    [] name = "l+t" -> L \cup T
+    [] name = "b+b" -> {"b"}
+    [] name = "fe+ne" -> FE \cup NE
 
 Names == <<"m", "s", "o", "q", "r", "c", "b", "e", "l", "t", "a", "d", "f", "fe", "n", "ne", "g", "p",
-           "a+o+m", "q+b", "b+c", "s+e">>
+           "a+o+m", "q+b", "b+c", "s+e", "a+b", "l+t", "b+b", "fe+ne">>
 
 VARIABLE assign
 Init == assign \in [Slots -> Base]
